@@ -16,7 +16,7 @@ from sigma.processing.pipeline import ProcessingPipeline
 from sigma.rule import SigmaRule
 from vlib.known import excluded, is_open
 from vlib.obl import Ob
-from vlib.params import P, concrete_section, fin
+from vlib.params import P, concrete_section, fin, sel, selb
 
 PROPERTY = "C17"
 TARGETS = [
@@ -34,7 +34,7 @@ TARGETS = [
     "sigma.processing.transformations.placeholder:QueryExpressionPlaceholderTransformation.apply_string_value",
 ]
 BOUNDS = {
-    "values": "every string of length <= 4 over {%, a, b, \\, *} (0..2 placeholders mixed with literals, wildcards, escaped percent signs), plain or with |contains",
+    "values": "every string of length <= 4 over {%, a, b, \\, *}; and every concatenation of 1..3 segments out of 11 (placeholders with list / scalar / numeric / mixed-type / undefined variables, literals, wildcard, escaped percent, backslash) i.e. 0..3 placeholders per value; plain or with |contains",
     "positions": "string value of a field, keyword value, regular expression",
     "pipelines": "none; value list (variables: list with a wildcard value, scalar, numbers, missing, wrong type); wildcard; value list include [a] then wildcard; wildcard exclude [a] then value list; query expression",
     "outside": "longer values; more than 2 placeholders per value; other placeholder names than those expressible over {a, b, \\, *}",
@@ -42,7 +42,7 @@ BOUNDS = {
 ASSUMPTIONS = ["placeholder syntax: unescaped %name% with a non-empty name without '%', found inside the literal runs of the parsed value; '\\%' is a literal percent sign"]
 
 ALPH = ["%", "a", "b", "\\", "*"]
-VARS = {"a": ["x1", "x*2"], "b": "y", "ab": [1, 2], "aa": [{"k": "v"}], "ba": []}
+VARS = {"a": ["x1", "x*2"], "b": "y", "ab": [1, 2], "aa": [{"k": "v"}], "ba": [], "bb": ["ok", None], "c": ["p", "q"]}
 
 PIPES = [
     None,
@@ -62,9 +62,11 @@ def make_pipeline(i):
 
 
 # ---------------------------------------------------------------- reference expansion
-def ref_placeholders(text: str):
-    """Source text -> list of parts: ("c", ch) | M | S | ("P", name)."""
-    toks = ref_parse(text)
+def ref_placeholders(text: str, regex: bool = False):
+    """Source text -> list of parts: ("c", ch) | M | S | ("P", name).
+    In a regular expression the backslash is no Sigma escape character: '*' and '?' always split the
+    literal runs (they are written back unchanged), everything else is literal."""
+    toks = [M if c == "*" else S if c == "?" else ("c", c) for c in text] if regex else ref_parse(text)
     out = []
     run = []
 
@@ -157,8 +159,10 @@ def plain_regex_text(toks):
 
 
 def check(text: str, contains: bool, pos: int, pipe: int) -> bool:
-    parts = ref_placeholders(text)
+    parts = ref_placeholders(text, pos == 2)
     names = [p[1] for p in parts if p[0] == "P"]
+    if pos == 2 and is_open("c17-wildcard-placeholder-in-regex") and any(handler_for(n, pipe) == "wild" for n in names):
+        return True  # known finding: trigger region skipped
     key = ("f" if pos != 1 else "") + ("|re" if pos == 2 else "") + "|expand" + ("|contains" if contains and pos != 2 else "")
     det = {"sel": {key: text}} if pos != 1 else {"sel": {key: [text]}}
     det["condition"] = "sel"
@@ -278,11 +282,50 @@ def c17_expand(n: int, k0: int, k1: int, k2: int, k3: int, contains: bool) -> bo
     return fin(ok)
 
 
+SEGMENTS = ["%a%", "%b%", "%c%", "%ab%", "%bb%", "%zz%", "x", "*", "\\%", "\\", "-"]
+
+
+def c17_segments(n: int, s0: int, s1: int, s2: int, contains: bool) -> bool:
+    """
+    pre: 1 <= n <= 3
+    pre: 0 <= s0 < len(SEGMENTS) and 0 <= s1 < len(SEGMENTS) and 0 <= s2 < len(SEGMENTS)
+    pre: n >= 3 or s2 == 0
+    pre: n >= 2 or s1 == 0
+    post: _
+    """
+    nn = sel(n - 1, 3) + 1
+    ss = [s0, s1, s2]
+    text = ""
+    for i in range(nn):
+        text += SEGMENTS[sel(ss[i], len(SEGMENTS))]
+    cc = selb(contains)
+    pos = P("POS", 0)
+    if pos == 2 and cc:
+        return True
+    with concrete_section():
+        ok = check(text, cc, pos, P("PIPE", 1))
+    return fin(ok)
+
+
 def c17_text(text: str, contains: bool, pos: int, pipe: int) -> bool:
     return check(text, contains, pos, pipe)
 
 
-OBLIGATIONS = [Ob("c17_expand", {"POS": pos, "PIPE": pipe, "LEN": 4}, 600) for pos in range(3) for pipe in range(len(PIPES)) if not (pos != 0 and pipe == 5)]
+def c17_wildcard_in_regex_strict(text: str) -> bool:
+    """Witness form for known finding c17-wildcard-placeholder-in-regex: a wildcard placeholder inside a
+    regular expression must be rendered with regular expression syntax ('.*')."""
+    doc = {"title": "t", "logsource": {"category": "c"}, "detection": {"sel": {"f|re|expand": text}, "condition": "sel"}}
+    b = make_backend(0)
+    b.processing_pipeline = make_pipeline(2)
+    try:
+        q = b.convert_rule(SigmaRule.from_dict(doc))[0]
+    except SigmaError:
+        return False
+    return ".*" in q
+
+
+COMBOS = [(pos, pipe) for pos in range(3) for pipe in range(len(PIPES)) if not (pos != 0 and pipe == 5)]
+OBLIGATIONS = [Ob("c17_expand", {"POS": pos, "PIPE": pipe, "LEN": 4}, 600) for pos, pipe in COMBOS] + [Ob("c17_segments", {"POS": pos, "PIPE": pipe}, 600) for pos, pipe in COMBOS]
 
 SELFCHECKS = [
     ("c17_text", {}, ("%a%", False, 0, 1), True),
